@@ -96,13 +96,14 @@ for T in range(1,15):
     for U in range(1,16):
         if T != U: foreign.append([T] + minimal[U])
 def dispatch(lens):
-    return [{"h":"VpC07_Dispatch","x":[lens,[0,200,201,203,204,206,207]]},
+    return [{"h":"VpC07_Dispatch","x":[lens,[0,200,201,203,204,206]]},
+            {"h":"VpC07_Dispatch","x":[[l for l in lens if l <= 28],[207]]},
             {"h":"VpC07_Dispatch","x":[[l for l in lens if l <= 20],[202,205]]}]
 R['C07'] = {
  "quick": dispatch([4,8,12,16,20,24]) + [{"h":"VpC07_Foreign","a":foreign},{"h":"VpC07_Own","a":[minimal[k] for k in range(1,16)]}],
  "thorough": dispatch([4,8,12,16,20,24,28,32]) + [{"h":"VpC07_Foreign","a":foreign},{"h":"VpC07_Own","a":[minimal[k] for k in range(1,16)]}],
  "bounds": "dispatch: one well-framed frame of 4..24 octets (4..20 for PT 202 and 205) with all 32 count/FMT values and all body bytes symbolic, one query per packet type class {not 200..207, 200, ..., 207}; own output: the Marshal output of a minimal symbolic value of each of the 15 kinds is dispatched back to its type; foreign rejection: all 14x14 ordered pairs of distinct decoder/packet types plus unknown-type raw packets, the foreign packet built from symbolic field values and encoded by the RFC reference encoder",
- "bounds_thorough": "as quick with frames up to 32 octets",
+ "bounds_thorough": "as quick with frames up to 32 octets (XR frames up to 28, SDES and 205 frames up to 20)",
  "require_reach": ["reach:end","reach:row-raw"], "opts": {"unwind": 100},
  "outside_claim": ["frames longer than the bound", "TWCC frames with packet status count above 8"],
 }
@@ -249,16 +250,22 @@ R['C15'] = {
  "require_reach": ["reach:end"], "opts": {"unwind": 300}, "opts_thorough": {"unwind": 8000},
  "assumptions": ["reflect is modelled by the engine against go/types of the current source (struct field order, tags, exportedness, sizes)"],
  "outside_claim": ["longer block sequences and other list lengths", "RLE blocks with an odd number of chunks (recorded under C05)"]}
+# TWCC packets with typed chunks: [status count, delta octets, kinds...]; kinds: 0 run-length chunk with symbolic
+# symbol and length, 1 one-bit vector, 2 two-bit vector (14 symbolic payload bits), 100+e run-length chunk of clipped length e
+TYPED_Q = [[14,0,1],[14,7,1],[14,14,1],[7,0,2],[1,2,0],[3,3,0],[5,10,0],[3,4,1],[10,8,1,103]]
+TYPED_T = TYPED_Q + [[14,d,1] for d in (1,2,3,5,9,11,13,15,16)] + [[c,d,0] for c in (1,2,3,4,6) for d in (0,1,2,4,6,8,12)] + [[8,8,102,1],[7,7,2],[7,14,2],[9,6,1],[12,6,103,1]]
 R['C13'] = {
  "quick": [{"h":"VpC13","a":[[20,8],[20,65535]]},{"h":"VpC13_Skeleton","x":[rng(0,16),[-1,0,1,3]]},
-           {"h":"VpC13_Run","x":[[0,1,3,7],[0,1]]},{"h":"VpC13_Chunkings","x":[[0,1,2,3,4],[0,1,2]]}],
+           {"h":"VpC13_Run","x":[[0,1,3,7],[0,1]]},{"h":"VpC13_Chunkings","x":[[0,1,2,3,4],[0,1,2]]},
+           {"h":"VpC13_Typed","a":TYPED_Q}],
  "thorough": [{"h":"VpC13","a":[[20,8],[20,65535]]},{"h":"VpC13_Skeleton","x":[rng(0,16),[-2,-1,0,1,2,3,4]]},
-           {"h":"VpC13_Run","x":[[0,1,2,3,5,7],[0,1,2]]},{"h":"VpC13_Chunkings","x":[[0,1,2,3,4],[0,1,2,3,4]]}],
- "bounds": "header-only packets with any status count; 17 chunk sequences (run-length, one-bit and two-bit vector chunks and mixes, first and later runs longer than the remaining count, vectors overshooting it, reserved symbol, empty run, exact fit) x {one octet short, exact, 1 and 3 surplus octets} with all header fields and delta octets symbolic; one run-length chunk with symbolic symbol and symbolic 13-bit run length for status counts {0,1,3,7} x delta areas of {0,1} octets; 5 pairs of different chunkings of the same status sequence; the decoder is compared with an independent expansion of the raw bytes",
+           {"h":"VpC13_Run","x":[[0,1,2,3,5,7],[0,1,2]]},{"h":"VpC13_Chunkings","x":[[0,1,2,3,4],[0,1,2,3,4]]},
+           {"h":"VpC13_Typed","a":TYPED_T}],
+ "bounds": "typed chunks: a single one-bit or two-bit status vector chunk with all 14 payload bits symbolic, a single run-length chunk with symbolic symbol and run length, and a one-bit vector followed by a run of clipped length 3, for the (status count, delta octets) pairs listed in the registry, header fields and delta octets symbolic, status count covered by the chunks; header-only packets with any status count; 17 chunk sequences (run-length, one-bit and two-bit vector chunks and mixes, first and later runs longer than the remaining count, vectors overshooting it, reserved symbol, empty run, exact fit) x {one octet short, exact, 1 and 3 surplus octets} with all header fields and delta octets symbolic; one run-length chunk with symbolic symbol and symbolic 13-bit run length for status counts {0,1,3,7} x delta areas of {0,1} octets; 5 pairs of different chunkings of the same status sequence; the decoder is compared with an independent expansion of the raw bytes",
  "bounds_thorough": "as quick with more surplus/deficit octets, status counts {0,1,2,3,5,7} and delta areas of 0..2 octets for the symbolic run",
  "require_reach": ["reach:end","reach:accepted"], "opts": {"unwind": 200},
- "assumptions": ["status-chunk words are enumerated (17 sequences) or restricted to a single symbolic run-length chunk; packets whose chunk words are fully symbolic exceeded the solver budget and are outside the claim"],
- "outside_claim": ["arbitrary symbolic status vectors, more than 3 chunks, status counts above the bound, the uint16 counter wrap near 65535 (documented under C01)"]}
+ "assumptions": ["status-chunk words are enumerated (17 sequences), or their kinds are fixed per case with symbolic payload bits (typed cases: one or two chunks, status count covered by the chunks); packets whose chunk kinds are symbolic as well exceeded the solver budget and are outside the claim"],
+ "outside_claim": ["chunk sequences with symbolic kinds, symbolic payload bits in more than two chunks, more than 3 chunks, status counts above the bound, the uint16 counter wrap near 65535 (documented under C01)"]}
 
 cheap = [1,2,4,5,6,7,10,11,12,13,15,17,18,20,21,22,23]
 def c01(level):
@@ -268,12 +275,13 @@ def c01(level):
          {"h":"VpC01_Decode","x":[[14], rng(0, 28 if big else 22)]},
          {"h":"VpC01_Decode","x":[[9], rng(0, 36 if big else 30)]},
          {"h":"VpC01_Decode","x":[[8], rng(0, 22)]}]
+    q.append({"h":"VpC01_TWCCTyped","a":TYPED_T if big else TYPED_Q,"solver":"z3-new"})
     fr = framing(20 if big else 12)
     q.append({"h":"VpC01_Datagram","a":[[0] + f for f in fr] + [[16] + f for f in fr]})
     return q
 R['C01'] = {
  "quick": c01('quick'), "thorough": c01('thorough'),
- "bounds": "every buffer length 0..32 for the 17 fixed-layout decoders and sub-decoders, 0..18 for SourceDescription and SourceDescriptionChunk, 0..22 for ExtendedReport, 0..30 for CCFeedbackReport, 0..22 for TransportLayerCC (packet status count <= 8); datagram entry points (rtcp.Unmarshal, CompoundPacket.Unmarshal): every length 0..12 under every composition into frames plus arbitrary tail; all byte contents symbolic; every loop unwound under an unwinding assertion (limit 80); allocation counted against 4 MiB + 64 bytes per input byte",
+ "bounds": "every buffer length 0..32 for the 17 fixed-layout decoders and sub-decoders, 0..18 for SourceDescription and SourceDescriptionChunk, 0..22 for ExtendedReport, 0..30 for CCFeedbackReport, 0..22 for TransportLayerCC (packet status count <= 8), plus TransportLayerCC packets of up to 36 octets with typed chunks (one symbolic one-bit/two-bit vector or run-length chunk, or a vector followed by a run; status counts up to 14; the cases of C13); datagram entry points (rtcp.Unmarshal, CompoundPacket.Unmarshal): every length 0..12 under every composition into frames plus arbitrary tail; all byte contents symbolic; every loop unwound under an unwinding assertion (limit 80); allocation counted against 4 MiB + 64 bytes per input byte",
  "bounds_thorough": "as quick with lengths 0..40 (fixed-layout), 0..24 (SDES), 0..28 (XR), 0..36 (CCFB), datagrams 0..20",
  "opts": {"unwind": 80},
  "require_reach": ["reach:end"],
